@@ -49,7 +49,19 @@ ASSUMPTIONS = [
 ]
 SHARDS = {"quick": 4, "thorough": 16}
 BUDGET_S = {"quick": 70, "thorough": 600}
-FLOORS = {}
+FLOORS = {"c15.popA.trees": 400, "c15.popB.trees": 100, "c15.popA.checks": 5000, "c15.popB.checks": 1300, "c15.engine.runs": 4000,
+          "c15.model.decided": 350, "c15.nontrivial": 200, "c15.rw.normalize": 500, "c15.rw.simplify": 500, "c15.rw.with_boost": 500,
+          "c15.rw.replace_absent": 500, "c15.rw.accept_id": 500, "c15.rw.apply_id": 500, "c15.rw.copy": 500, "c15.rw.deepcopy": 500,
+          "c15.rw.qcopy": 500, "c15.rw.pickle2": 500, "c15.rw.pickleH": 500, "c15.rw.and_op": 120, "c15.rw.or_op": 200, "c15.rw.sub_op": 120,
+          "c15.idempotent.evals": 500, "c15.estimate.evals": 500, "c15.steps": 18000, "c15.steps.listed": 60,
+          "c15.popB.explained_by_listed": 25, "c15.simplify.leaf_checks": 3500, "c15.eqhash.evals": 2500, "c15.parser.trees": 80,
+          "c15.nested.cases": 5, "c15.with_boost.value_checks": 350,
+          "c15.qclass.And": 200, "c15.qclass.Or": 250, "c15.qclass.Not": 100, "c15.qclass.AndNot": 70, "c15.qclass.AndMaybe": 70,
+          "c15.qclass.Require": 100, "c15.qclass.DisjunctionMax": 70, "c15.qclass.Every": 100, "c15.qclass.NullQuery": 12,
+          "c15.qclass.TermRange": 200, "c15.qclass.NumericRange": 80, "c15.qclass.DateRange": 40, "c15.qclass.Phrase": 120,
+          "c15.qclass.Prefix": 80, "c15.qclass.Wildcard": 100, "c15.qclass.Regex": 40, "c15.qclass.FuzzyTerm": 50,
+          "c15.qclass.Variations": 40, "c15.qclass.ConstantScoreQuery": 40, "c15.qclass.Sequence": 25, "c15.qclass.SpanNear": 25,
+          "c15.qclass.NestedParent": 30, "c15.qclass.NestedChildren": 30}
 
 EXTRA_WORDS = ["alfas", "echoed", "echoes", "golfing", "golfs"]
 BOOSTS = [0.5, 2.0, 3.0]
